@@ -14,6 +14,7 @@ import (
 	"github.com/elastos/Elastos.ELA/core/types/interfaces"
 	"github.com/elastos/Elastos.ELA/core/types/outputpayload"
 	"github.com/elastos/Elastos.ELA/core/types/payload"
+	crstate "github.com/elastos/Elastos.ELA/cr/state"
 	"github.com/elastos/Elastos.ELA/utils"
 	"github.com/elastos/Elastos.ELA/zzverif/nd"
 )
@@ -449,6 +450,66 @@ func ZZ_C21_returndeposit() {
 			o.ProgramHash = p.depositHash
 		}
 		tx.outs = append(tx.outs, o)
+	}
+	zzDposApplyAndRollback(s, []interfaces.Transaction{tx})
+}
+
+// ZZ_C21_modes: transactions that change the consensus mode and other scalar
+// bookkeeping: RevertToPOW (accepted while the consensus is DPoS), RevertToDPOS
+// (while it is PoW), NextTurnDPOSInfo, UpdateVersion, and a council member's
+// claim-node transaction for the current or next committee (the member has or
+// has not claimed a node before); every scalar is arbitrary before the block.
+func ZZ_C21_modes() {
+	s := zzDposState()
+	s.NoProducers, s.NoClaimDPOSNode = nd.Bool("noProducers"), nd.Bool("noClaimDPOSNode")
+	s.NeedRevertToDPOSTX, s.NeedNextTurnDPOSInfo = nd.Bool("needRevertToDPOS"), nd.Bool("needNextTurnInfo")
+	s.DPOSWorkHeight, s.RevertToPOWBlockHeight = nd.U32("dposWorkHeight"), nd.U32("revertToPOWBlockHeight")
+	s.VersionStartHeight, s.VersionEndHeight = nd.U32("versionStart"), nd.U32("versionEnd")
+	nd.Assume(s.DPOSWorkHeight == 0 || s.DPOSWorkHeight > zzDH) // no pending switch falls on this block
+	var tx *zzStTx
+	switch nd.Choose("kind", 5) {
+	case 0:
+		s.ConsensusAlgorithm = DPOS
+		tx = &zzStTx{typ: common2.RevertToPOW, id: common.Uint256{0x21, 0x30}, pld: &payload.RevertToPOW{WorkingHeight: zzDH}}
+	case 1:
+		s.ConsensusAlgorithm = POW
+		s.DPOSWorkHeight = 0
+		tx = &zzStTx{typ: common2.RevertToDPOS, id: common.Uint256{0x21, 0x31}, pld: &payload.RevertToDPOS{WorkHeightInterval: 10}}
+	case 2:
+		tx = &zzStTx{typ: common2.NextTurnDPOSInfo, id: common.Uint256{0x21, 0x32}, pld: &payload.NextTurnDPOSInfo{}}
+	case 3:
+		tx = &zzStTx{typ: common2.UpdateVersion, id: common.Uint256{0x21, 0x33}, pld: &payload.UpdateVersion{StartHeight: nd.U32("newStart"), EndHeight: nd.U32("newEnd")}}
+	default:
+		did := common.Uint168{0x67, 6}
+		code := append(append([]byte{33}, zzDposKey(1)...), common.STANDARD)
+		members := []*crstate.CRMember{{Info: payload.CRInfo{DID: did, Code: code}}}
+		next := nd.Bool("nextCommittee")
+		s.getCurrentCRMembers = func() []*crstate.CRMember {
+			if next {
+				return nil
+			}
+			return members
+		}
+		s.getNextCRMembers = func() []*crstate.CRMember {
+			if next {
+				return members
+			}
+			return nil
+		}
+		owner := hex.EncodeToString(zzDposKey(1))
+		if nd.Bool("claimedBefore") {
+			if next {
+				s.NextCRNodeOwnerKeys[hex.EncodeToString(zzDposKey(2))] = owner
+			} else {
+				s.CurrentCRNodeOwnerKeys[hex.EncodeToString(zzDposKey(2))] = owner
+			}
+		}
+		ver := byte(payload.CurrentCRClaimDPoSNodeVersion)
+		if next {
+			ver = payload.NextCRClaimDPoSNodeVersion
+		}
+		tx = &zzStTx{typ: common2.CRCouncilMemberClaimNode, ver: ver, id: common.Uint256{0x21, 0x34},
+			pld: &payload.CRCouncilMemberClaimNode{NodePublicKey: zzDposKey(3), CRCouncilCommitteeDID: did}}
 	}
 	zzDposApplyAndRollback(s, []interfaces.Transaction{tx})
 }
